@@ -332,13 +332,23 @@ func (u *Universe) rangeFact(x Term, t types.Type, top Term) Term {
 	}
 	switch tt := t.Underlying().(type) {
 	case *types.Slice:
-		f := fmt.Sprintf("(and (<= 0 (s.off %s)) (<= 0 (s.len %s)) (<= (s.len %s) (s.cap %s)) (<= 0 (s.base %s)) (=> (= (s.base %s) 0) (and (= (s.len %s) 0) (= (s.cap %s) 0) (= (s.off %s) 0)))", x, x, x, x, x, x, x, x, x)
+		// the backing array is nil (0), an allocated object (> 0) or an array that
+		// lives inline in another object (an interior reference fld(r,k) < 0): no
+		// sign is assumed, only that the object it belongs to is allocated
+		f := fmt.Sprintf("(and (<= 0 (s.off %s)) (<= 0 (s.len %s)) (<= (s.len %s) (s.cap %s)) (<= 0 (oroot (s.base %s))) (=> (= (s.base %s) 0) (and (= (s.len %s) 0) (= (s.cap %s) 0) (= (s.off %s) 0)))", x, x, x, x, x, x, x, x, x)
 		if top != "" {
-			f += fmt.Sprintf(" (<= (s.base %s) %s)", x, top)
+			f += fmt.Sprintf(" (<= (oroot (s.base %s)) %s)", x, top)
 		}
 		f += fmt.Sprintf(" (<= (s.cap %s) %s) (<= (s.off %s) %s)", x, addrSpace, x, addrSpace)
 		return f + ")"
-	case *types.Pointer, *types.Map, *types.Chan:
+	case *types.Pointer:
+		// a pointer may point into another object (&x.f of an inline struct or
+		// array field is an interior reference < 0): only its object is bounded
+		if top != "" {
+			return fmt.Sprintf("(and (<= 0 (oroot %s)) (<= (oroot %s) %s))", x, x, top)
+		}
+		return fmt.Sprintf("(<= 0 (oroot %s))", x)
+	case *types.Map, *types.Chan:
 		if top != "" {
 			return fmt.Sprintf("(and (<= 0 %s) (<= %s %s))", x, x, top)
 		}
@@ -361,7 +371,7 @@ func (u *Universe) rangeFact(x Term, t types.Type, top Term) Term {
 		}
 	case *types.Interface:
 		if top != "" {
-			return fmt.Sprintf("(and (<= 0 (i.val %s)) (<= (i.val %s) %s) (<= 0 (i.typ %s)) (=> (= (i.typ %s) 0) (= (i.val %s) 0)))", x, x, top, x, x, x)
+			return fmt.Sprintf("(and (<= 0 (oroot (i.val %s))) (<= (oroot (i.val %s)) %s) (<= 0 (i.typ %s)) (=> (= (i.typ %s) 0) (= (i.val %s) 0)))", x, x, top, x, x, x)
 		}
 	case *types.Array:
 		if b := basicInt(tt.Elem()); b != nil {
